@@ -1,6 +1,12 @@
 def _extra(stats, cov):
     return dict(programs=stats.get('full_plans_validated', 0) + stats.get('logs_judged', 0),
-                disagreements_checked=stats.get('gc_calls', 0) + stats.get('hb_calls', 0))
+                disagreements_checked=stats.get('gc_calls', 0) + stats.get('hb_calls', 0),
+                # generator family scale: judged by the extracted fast_c04 (C04_fast_exact)
+                large_plans_validated=stats.get('scale_plans_validated', 0),
+                large_plan_actions_validated=stats.get('scale_actions_validated', 0),
+                large_plans_with_branch_index_ge_65536=stats.get('scale_plans_with_branch_index_ge_65536', 0),
+                large_plans_with_hibernation=stats.get('scale_plans_with_hibernation', 0),
+                large_runs_judged=stats.get('scale_runs', 0), large_run_calls_judged=stats.get('scale_calls_judged', 0))
 
 
 CONFIG = dict(
@@ -17,7 +23,19 @@ CONFIG = dict(
          'd = 0..8, called one by one on a commit graph (compared with the models stage by stage) and the composed '
          'prepareRunPlan(commits, d) on the reversed slice; every full plan validated by c04_ok. Graph generators as in C02: all '
          'DAGs on <=5 commits x all hash orders (one case per graph and distinct generatePlan output), thorough: connected 6-commit DAGs x every '
-         '24th order, random histories to 14 / 40 commits. Non-trivial = a fork or merge and >=4 actions (fn*) / a commit with two '
+         '24th order, random histories to 14 / 40 commits; every fabricated commit carries a committer timestamp (none / equal / '
+         'growing / falling / random / skewed clocks / ties; field times); kind wide = forks of 7..13 branches and octopus merges of as '
+         'many parents (planlib.WideGraph); the fn* plans hold forks of 8..13 branches and octopus merges of everything alive. '
+         'scale-<shape>: LARGE histories given by (shape, size, hmode, tmode, gseed; regenerated on replay; shapes comb, diamonds, '
+         'star, starmerge, roots, spine, bush, ladder, ffchain as in C02): generatePlan -> collectGarbage -> insertHibernateBoot(d) '
+         'for the distances in field dists and prepareRunPlan(commits, fulld); sizes 10^3 in every shape (three distances each: 1, '
+         '2..8, 9..68), 10^4 in three, a bush and stars of 65535 / 65536 / 65537 branches (under distances 0, 1, 2) '
+         'in the quick tier; thorough adds stars at 2^8 and 2^15 (+-1), > 2^16 in comb / roots / starmerge / diamond combs with several '
+         'distances, 10^5 in five shapes, a spine of 10^6 and a star of 3*10^5. Every large plan is judged by the extracted fast_c04 (trie-based, '
+         'C04_fast_exact: accepts iff lifecycle_ok, nothing left hibernated, merge participants share their last commit), erasing '
+         'hibernate/boot from an insertHibernateBoot output must give its input; the list-based models GC.v / Hibernate.v and c04_ok '
+         'are quadratic and are not run at this size. '
+         'Non-trivial = a fork or merge and >=4 actions (fn*) / a commit with two '
          'distinct parents (graph); distinct = distinct input fields. '
          'Stream c04run (execution level): the real hercules.NewPipeline(repo).Initialize/Run on a synthetic in-memory repository with '
          'hibernation distance 0..4 and one or two recording leaf items that implement Hibernate/Boot/Dispose and fork by copy with a '
@@ -28,13 +46,24 @@ CONFIG = dict(
          'harness/synth.GenOctopusShape (1-3 octopus merges of 3..7 parents per history, arms of different lengths so that the parent '
          'branches have been idle for different times, chains after the merge, 1..3 roots, sometimes a second head or a two-parent merge '
          'inside an arm; a third aimed at parents = distance+3 / +4, the boundary at which ONE boot action covers several branches), lin, '
-         'dag = random DAGs to 16 commits with 2-4 parent merges and several roots, hist = synth.GenHist shapes to 24 commits. '
+         'dag = random DAGs to 16 commits with 2-4 parent merges and several roots, hist = synth.GenHist shapes to 24 commits; '
+         'octowide = root + 8..14 arms + octopus merge x all four DumpPlan / PrintActions combinations, wide = planlib.WideGraph (forks '
+         'of 7..16 branches, octopus merges of as many parents, several per history). In every kind the options vary: opts bit 0 = '
+         'Pipeline.DumpPlan, bit 1 = Pipeline.PrintActions (printed text goes to a no-op sink installed through verifapi/c14.SetPlanPrinter), '
+         'tmode = commit timestamps growing (0) or planlib.TimesFor modes 1..6. scale-<shape>: the large histories of stream c04 as real '
+         'repositories (10^3 branches in every shape; thorough: 10^4 in six shapes, a star and a diamond comb with > 2^16 instances), '
+         'distance 0..3, one item; the call log is read as a plan over instance ids (root = emerge, Fork = fork onto the clones, Consume = '
+         'commit, Merge, Hibernate, Boot, Finalize = delete) and judged by fast_c04 (the list-based run_okb is quadratic). '
          'Non-trivial (c04run) = the log holds a Hibernate and a Merge call.',
     exhaustive_note='all DAGs on <=5 commits x all hash orders x distances 0..8 (cases de-duplicated by generatePlan output)',
     assumptions=['hibernation distance >= 0 in the theorems (prepareRunPlan calls insertHibernateBoot only for d > 0)',
                  'collectGarbage on branch ids < 0 depends on the unstable sort (an action can be emitted twice): outside the '
                  'domain of C04_gc (pre_ok requires ids >= rootBranchIndex) and not compared',
                  'the plan of generatePlan is validated per plan (pre_okb), as in C02',
+                 'large histories (family scale, 10^3 .. 10^6 branches) are judged by fast_c04 = the lifecycle, hibernation and '
+                 'same-last-commit clauses exactly (C04_fast_exact); the master-branch clause and "a merge commit has two non-redundant '
+                 'parents" need ancestor sets and are checked on small graphs only; collectGarbage / insertHibernateBoot are compared '
+                 'with their Gallina models on plans of up to a few hundred actions only',
                  'c04run: the recording items never fail and fork by copy; what is judged is the call log the items receive (the plan Run '
                  'executed is not looked at: prepareRunPlan is not deterministic across calls); deleting a branch from Run\'s map is not a '
                  'call, so a disposed instance is one that receives no later call; the last-consumed-commit clause of a merge speaks about '
@@ -43,8 +72,10 @@ CONFIG = dict(
                   'tied to the code by the replay of every harness case',
                   'the abstract executor coq/theories/Plan/Exec.v as the meaning of live / hibernated / disposed (hand-written '
                   'from Pipeline.Run; the plan-level theorems are about it, the stream c04run judges the real Run independently of it)',
-                  'the recording items of harness/cmd/c04run (hook-free: public hercules API, facts key "Pipeline.HibernationDistance" read back '
-                  'from Pipeline.HibernationDistance) and ocaml/c04run/driver.ml (splits the log by deployed item, computes single-headedness)'],
+                  'the recording items of harness/cmd/c04run (public hercules API; facts keys "Pipeline.HibernationDistance" / "Pipeline.DumpPlan" / '
+                  '"Pipeline.PrintActions" read back from the Pipeline fields; one hook: verifapi/c14.SetPlanPrinter swaps the print sink of '
+                  'internal/core for a no-op) and ocaml/c04run/driver.ml (splits the log by deployed item, computes single-headedness; for '
+                  'large runs: reads the call log as a plan over instance ids)'],
     level_text='proof for the garbage-collection and hibernation stages (all plans, all distances) over line-by-line Gallina '
                'models tied to the Go functions by replay; the plan generator stage is validated per plan by a proved-sound checker; '
                'the execution of the plan by Pipeline.Run is validated per run by a proved-sound oracle over the call log of recording items',
